@@ -170,6 +170,7 @@ type c18Cfg struct {
 	dry, dev      bool
 	pct           [3][4]int64 // quarter-percent; -1 = key absent; [dim][low, high, prodLow, prodHigh]
 	wts           [3]int64    // nodePool.ResourceWeights; -1 = key absent
+	relapse       int         // 0 free generation; 1 / 2: node 0 is (node-level / prod) overloaded until it is drained, recovers, relapses
 	useSelector   bool
 	viaNew        bool
 	exclNS        bool
@@ -564,6 +565,9 @@ func c18GenRound(r *vRand, c c18Cfg, rd int, relapsePhase *int, nodes []*c18Node
 		if r.Chance(1, 30) {
 			n.unsched = !n.unsched
 		}
+		if c.relapse > 0 {
+			n.unsched = false
+		}
 		c18BuildNode(n)
 		n.metricKind = 0
 		if r.Chance(1, 10) {
@@ -593,7 +597,7 @@ func c18GenRound(r *vRand, c c18Cfg, rd int, relapsePhase *int, nodes []*c18Node
 		}
 		forceProd := -1 // -1 free, 0 all non-prod, 1 all prod
 		if c.relapse > 0 {
-			n.metricKind, n.unsched = 0, false
+			n.metricKind = 0
 			hot := n.id == 0 && *relapsePhase != 1
 			switch {
 			case hot:
